@@ -41,7 +41,11 @@ def run(run, pid, only=None):
                 func = func.__func__
             eng = T.Engine(func, c["config"], inner=c.get("inner"))
             paths = eng.paths()
-            results = T.check(paths, c["clauses"])
+            # a contract shared by several properties may assign single clauses to some of them only
+            clauses = [cl for cl in c["clauses"] if pid in c.get("clause_props", {}).get(cl[0], c.get("default_props", c["props"]))]
+            if not clauses:
+                continue
+            results = T.check(paths, clauses)
         except T.Unsupported as e:
             cov["degraded_functions"].append({"function": q, "reason": "trace obligations could not be generated: %s" % e})
             verdicts[q] = "degraded"
